@@ -141,6 +141,37 @@ theorem addArgument_eq (st : St) (i : Option Nat) (e : Entry) :
         · split <;> rfl
       · rfl
 
+@[simp] theorem raiseOf_IndexError : raiseOf "IndexError" = .crash .IndexError := by decide
+@[simp] theorem raiseOf_OverflowError : raiseOf "OverflowError" = .crash .Overflow := by decide
+
+open I18n.Generated.CFmtConv in
+/-- `FormatString.add_argument` as regenerated from the source = the kit's hand-written version (for the indices the callers
+    pass: `None` or an `int`) -/
+theorem add_argument_eq_kit (st : St) (i : Option Nat) (e : Entry) :
+    add_argument st (optVal i) e = Py.addArgument st (optVal i) e := by
+  unfold add_argument Py.addArgument
+  obtain ⟨next, map, nitems, warnings⟩ := st
+  cases i with
+  | none =>
+    cases next with
+    | none => simp [optVal, argIndexOf, addArgumentRaw, mapIsNone, isNone, nextVal]
+    | some k =>
+      by_cases hk : k > I18n.Generated.CFormatTables.NL_ARGMAX <;>
+        simp [optVal, argIndexOf, addArgumentRaw, mapIsNone, isNone, nextVal, addInt, setNext, gt, lt, ite_ok, mapAppend, hk]
+  | some n =>
+    cases next with
+    | none =>
+      by_cases hk : n > I18n.Generated.CFormatTables.NL_ARGMAX <;>
+        simp [optVal, argIndexOf, addArgumentRaw, mapIsNone, isNone, nextVal, gt, lt, ite_ok, mapAppend, hk]
+    | some k =>
+      by_cases h1 : k = 1
+      · subst h1
+        by_cases hm : map.isEmpty = true <;> by_cases hk : n > I18n.Generated.CFormatTables.NL_ARGMAX <;>
+          simp [optVal, argIndexOf, addArgumentRaw, mapIsNone, isNone, nextVal, eq, mapEmpty, hm, hk, setNext, gt, lt, mapAppend, ite_ok]
+      · have : (Val.int k == Val.int 1) = false := by
+          rw [beq_eq_false_iff_ne]; intro h; injection h with h; exact h1 h
+        simp [optVal, argIndexOf, addArgumentRaw, mapIsNone, isNone, nextVal, eq, this, h1, ite_ok]
+
 /-- the model with the position of the conversion fixed (`Conversion.__init__` passes `self`) -/
 def modelChecks (w : Bool) (st : St) (d : Directive) (tp : String) : Except CErr St :=
   match checkFlags w st d.flags d.body.conv with
@@ -390,7 +421,7 @@ theorem checks_eq (w : Bool) (st : St) (d : Directive) (hd : d.Wf) (tp : String)
                     (Except.ok (varwidthIndexVal d.width)))
                   fun varwidth_index =>
                   bind
-                    (except1 (except1 (addArgument st2 varwidth_index (variableWidth st.nitems)) Py.Exc.IndexError
+                    (except1 (except1 (I18n.Generated.CFmtConv.add_argument st2 varwidth_index (variableWidth st.nitems)) Py.Exc.IndexError
                         (Except.error (raiseOf "ArgumentNumberingMixture"))) Py.Exc.Overflow (Except.error (raiseOf "ArgumentRangeError")))
                     fun st => Except.ok (st, Val.ellipsis))
                 (Except.ok (st2, widthVal d.width)))
@@ -413,7 +444,7 @@ theorem checks_eq (w : Bool) (st : St) (d : Directive) (hd : d.Wf) (tp : String)
         | none =>
           simp only [widthVal, varwidthVal, varwidthIndexVal, idxVal, isNone, truthy, Bool.not_true, ite_false, ite_true, bind_ok, optIndex,
             List.isEmpty_cons, Bool.not_false, raiseOf_ArgumentNumberingMixture, raiseOf_ArgumentRangeError, widthRes]
-          rw [show Val.none = optVal none from rfl, addArgument_eq]
+          rw [show Val.none = optVal none from rfl, add_argument_eq_kit, addArgument_eq]
           unfold variableWidth
           cases CFmt.addArgument st2 none ⟨.width, variableWidthType, st.nitems⟩ <;> rfl
         | some ds =>
@@ -425,7 +456,7 @@ theorem checks_eq (w : Bool) (st : St) (d : Directive) (hd : d.Wf) (tp : String)
           | error e => rfl
           | ok n =>
             dsimp only
-            rw [show Val.int n = optVal (some n) from rfl, addArgument_eq]
+            rw [show Val.int n = optVal (some n) from rfl, add_argument_eq_kit, addArgument_eq]
             unfold variableWidth
             cases CFmt.addArgument st2 (some n) ⟨.width, variableWidthType, st.nitems⟩ <;> rfl
     have prec_block : ∀ (s : St) {β : Type} (k : Val × St → R β),
@@ -446,7 +477,7 @@ theorem checks_eq (w : Bool) (st : St) (d : Directive) (hd : d.Wf) (tp : String)
                     (Except.ok (varprecIndexVal d.prec)))
                   fun varprec_index =>
                   bind
-                    (except1 (except1 (addArgument s varprec_index (variablePrecision st.nitems)) Py.Exc.IndexError
+                    (except1 (except1 (I18n.Generated.CFmtConv.add_argument s varprec_index (variablePrecision st.nitems)) Py.Exc.IndexError
                         (Except.error (raiseOf "ArgumentNumberingMixture"))) Py.Exc.Overflow (Except.error (raiseOf "ArgumentRangeError")))
                     fun st => Except.ok (Val.ellipsis, st))
                 (Except.ok (precVal d.prec, s)))
@@ -475,7 +506,7 @@ theorem checks_eq (w : Bool) (st : St) (d : Directive) (hd : d.Wf) (tp : String)
         | none =>
           simp only [precVal, varprecVal, varprecIndexVal, idxVal, isNone, truthy, Bool.not_true, ite_false, ite_true, bind_ok, optIndex,
             List.isEmpty_cons, Bool.not_false, raiseOf_ArgumentNumberingMixture, raiseOf_ArgumentRangeError, precRes]
-          rw [show Val.none = optVal none from rfl, addArgument_eq]
+          rw [show Val.none = optVal none from rfl, add_argument_eq_kit, addArgument_eq]
           unfold variablePrecision
           cases CFmt.addArgument s none ⟨.prec, variablePrecisionType, st.nitems⟩ <;> rfl
         | some ds =>
@@ -487,7 +518,7 @@ theorem checks_eq (w : Bool) (st : St) (d : Directive) (hd : d.Wf) (tp : String)
           | error e => rfl
           | ok n =>
             dsimp only
-            rw [show Val.int n = optVal (some n) from rfl, addArgument_eq]
+            rw [show Val.int n = optVal (some n) from rfl, add_argument_eq_kit, addArgument_eq]
             unfold variablePrecision
             cases CFmt.addArgument s (some n) ⟨.prec, variablePrecisionType, st.nitems⟩ <;> rfl
     have index_block : ∀ {β : Type} (k : Val → R β),
@@ -512,7 +543,7 @@ theorem checks_eq (w : Bool) (st : St) (d : Directive) (hd : d.Wf) (tp : String)
     rw [width_block]
     simp only [prec_block, index_block]
     simp only [doWidth_b, doPrec_b, doIndex_b, idxRes_b, bind_assoc, bind_ok, inStr1, eq_str1, void_eq, isNone_optVal, checkW_gen, checkP_gen,
-      addArgument_eq, raiseOf_WidthError, raiseOf_PrecisionError, raiseOf_ForbiddenArgumentIndex, raiseOf_ArgumentNumberingMixture,
+      add_argument_eq_kit, addArgument_eq, raiseOf_WidthError, raiseOf_PrecisionError, raiseOf_ForbiddenArgumentIndex, raiseOf_ArgumentNumberingMixture,
       raiseOf_ArgumentRangeError, selfEntry, checkW, checkP, finalIdx]
     congr 1; funext x; congr 1; funext _; congr 1; funext y; congr 1; funext s5; congr 1; funext a
     rw [bind_pure]
